@@ -102,7 +102,16 @@ type TypeInvSpec struct {
 	Clause  *Clause
 }
 
+// GuardSpec: guarded_by T.field by T.mutex  |  guarded_by var by mutexvar   (package pkg)
+type GuardSpec struct {
+	PkgName string
+	Type    string // "" for package-level variables
+	Field   string
+	Mutex   string
+}
+
 type Specs struct {
+	Guards   []*GuardSpec
 	TypeInvs map[string]*TypeInvSpec // pkg.Type
 	Funcs  map[string]*FuncSpec
 	Preds  map[string]*PredSpec // by name and by pkg.name
@@ -116,6 +125,7 @@ func NewSpecs() *Specs {
 
 var labelRe = regexp.MustCompile(`^([A-Za-z_][A-Za-z0-9_\-]*):\s+(.*)$`)
 var typeinvRe = regexp.MustCompile(`^\(\s*(\w+)\s+\*(\w+)\s*\)\s*=\s*(.*)$`)
+var guardRe = regexp.MustCompile(`^(?:(\w+)\.)?(\w+)\s+by\s+(?:(\w+)\.)?(\w+)$`)
 var ghostAtRe = regexp.MustCompile(`^(\w+)\s*=\s*(.*?)\s+after\s+([\w.$]+)$`)
 var funcHdrRe = regexp.MustCompile(`^func\s+(?:\(\s*(\w+)?\s*(\*?)\s*([\w]+)\s*\)\s*)?([\w$]+)\s*$`)
 
@@ -210,6 +220,14 @@ func (sp *Specs) LoadSpecFile(path, pkgName string) {
 			if pkgName != "" {
 				sp.Preds[pkgName+"."+ps.Name] = ps
 			}
+		case "guarded_by":
+			cur = nil
+			m := guardRe.FindStringSubmatch(rest)
+			if m == nil {
+				errf(l, "bad guarded_by (want: guarded_by [T.]field by [T.]mutex)")
+				continue
+			}
+			sp.Guards = append(sp.Guards, &GuardSpec{PkgName: pkgName, Type: m[1], Field: m[2], Mutex: m[4]})
 		case "typeinv":
 			cur = nil
 			m := typeinvRe.FindStringSubmatch(rest)
